@@ -50,7 +50,7 @@ PROPS = {
     'C11': dict(
         props_file='Props/C11.v',
         components=['c11', 'c10'],
-        comp_names={1015: 'FileSnapshotStore under a file-size limit (writes refused with EFBIG in Write or in the final flush of Close)', 6: 'node sequences with takeSnapshot events (snapshot metadata, content and compaction after every snapshot, crash cuts inside)', 11: 'compactLogsWithTrailing on a stepper node over a recording MapLogStore'},
+        comp_names={103: 'commitment scripts with takeSnapshot + compaction on a real cluster vs the composed cluster model (Model/ClusterCommit.v run_clustersnap)', 1015: 'FileSnapshotStore under a file-size limit (writes refused with EFBIG in Write or in the final flush of Close)', 6: 'node sequences with takeSnapshot events (snapshot metadata, content and compaction after every snapshot, crash cuts inside)', 11: 'compactLogsWithTrailing on a stepper node over a recording MapLogStore'},
         rule='first index, snapshot index, last index, TrailingLogs each in 0..8 (6561 cases, exhaustive in both tiers). Compared: the DeleteRange issued. '
              'Non-trivial = a range was deleted',
         exhaustive=True,
@@ -59,7 +59,7 @@ PROPS = {
     'C04': dict(
         props_file='Props/C04.v',
         components=['c04'],
-        comp_names={6: 'node sequence (appendEntries through processRPC on a stepper node)',
+        comp_names={103: 'commitment scripts with takeSnapshot + compaction on a real cluster vs the composed cluster model (Model/ClusterCommit.v run_clustersnap)', 6: 'node sequence (appendEntries through processRPC on a stepper node)',
                     101: 'replication scripts on a real cluster vs the composed cluster model with logs (Model/ClusterLog.v)'},
         rule='(0) composed-model tie (component 101): 2-5 real servers (all goroutines, 1h timers; elections scripted as in C01 component 1) where a real leader stores entries through Apply, '
              'the REAL setupAppendEntries builds requests for arbitrary (nextIndex, lastIndex), heartbeats are built as replication.go does, and every request built so far can be executed by its '
